@@ -28,7 +28,7 @@ NoEof == [set |-> FALSE, cond |-> "NoError", loc |-> FALSE, flag |-> FALSE, size
 SInit(C) ==
   [ alive |-> TRUE, st |-> "Meta", txs |-> "Active", status |-> "Undefined",
     cond |-> "NoError", deliv |-> "Incomplete", fstat |-> "Unreported",
-    naks |-> <<>>, progress |-> 0, rfs |-> 0, eof |-> NoEof,
+    naks |-> <<>>, progress |-> 0, rfs |-> 0, eof |-> NoEof, acked |-> FALSE,
     ack |-> FALSE, ackcond |-> "NoError", ackstatus |-> "Undefined",
     prompt |-> "None", eofInd |-> TRUE, cursor |-> 0,
     tAck |-> CNew, tInact |-> CNew ]
@@ -70,7 +70,7 @@ SShutdown(s, C) == [s EXCEPT !.txs = "Term",
                              !.tAck = CPause(s.tAck, SToAck(C), C.limit),
                              !.tInact = CPause(s.tInact, SToInact(C), C.limit)]
 
-SPrepareEof(s, C, loc) == [s EXCEPT !.eof = [set |-> TRUE, cond |-> s.cond, loc |-> loc, flag |-> TRUE, size |-> SNUnits(C), ckok |-> TRUE]]
+SPrepareEof(s, C, loc) == [s EXCEPT !.acked = FALSE, !.eof = [set |-> TRUE, cond |-> s.cond, loc |-> loc, flag |-> TRUE, size |-> SNUnits(C), ckok |-> TRUE]]
 
 \* _cancel                                                          send.rs:602
 \* (computing the EOF checksum reads the whole source file: the cursor ends up at its end)
@@ -222,7 +222,7 @@ SPdu(s, C, p) ==
                                  !.st = "Fin", !.cond = p.cond]
             IN [s |-> s1, out |-> <<>>, ind |-> <<SFinishedInd(s1, p.resp)>>, res |-> "ok"]
        [] p.k = "NAK" -> ok([s0 EXCEPT !.naks = SDedup(s0.naks \o SFlatten(p.reqs, C))])
-       [] p.k = "ACK" -> IF p.of = "EOF" THEN ok([s0 EXCEPT !.tAck = CNew, !.eof.flag = FALSE])   \* reset + pause
+       [] p.k = "ACK" -> IF p.of = "EOF" THEN ok([s0 EXCEPT !.tAck = CNew, !.eof.flag = FALSE, !.acked = TRUE])   \* reset + pause
                          ELSE unexpected
        [] p.k = "KeepAlive" -> ok([s0 EXCEPT !.rfs = p.progress])
        [] OTHER -> unexpected
@@ -238,10 +238,13 @@ SCmd(s, C, c) ==
   CASE c = "Cancel" -> [s |-> SCancel(s, C, "CancelReceived"), out |-> <<>>, ind |-> <<>>, res |-> "ok"]
     [] c = "Suspend" -> LET x == SSuspend(s, C) IN [s |-> x.s, out |-> <<>>, ind |-> x.ind, res |-> "ok"]
     [] c = "Resume" ->
-         LET s1 == IF s.st \in {"Eof", "Canc"}
-                   THEN [s EXCEPT !.eof.flag = IF COccurred(s.tAck, SToAck(C), C.limit) /\ s.eof.set THEN TRUE ELSE s.eof.flag,
-                                  !.tAck = CRestart(s.tAck, SToAck(C), C.limit),
-                                  !.tInact = CRestart(s.tInact, SToInact(C), C.limit)]
+         LET awaiting == ~s.acked /\ ~(~SIsAck(C) /\ s.st = "Eof")
+             s1 == IF s.st \in {"Eof", "Canc"}
+                   THEN IF awaiting
+                        THEN [s EXCEPT !.eof.flag = IF COccurred(s.tAck, SToAck(C), C.limit) /\ s.eof.set THEN TRUE ELSE s.eof.flag,
+                                       !.tAck = CRestart(s.tAck, SToAck(C), C.limit),
+                                       !.tInact = CRestart(s.tInact, SToInact(C), C.limit)]
+                        ELSE [s EXCEPT !.tInact = CRestart(s.tInact, SToInact(C), C.limit)]
                    ELSE s
          IN [s |-> [s1 EXCEPT !.txs = "Active"], out |-> <<>>,
              ind |-> <<[e |-> "S", k |-> "Resumed", progress |-> s.progress]>>, res |-> "ok"]
